@@ -163,17 +163,17 @@ theorem timeline_is_slice (durs : List Nat) (R ts tcF tsbd fuel : Nat) (hn : 0 <
   rw [tlLoop_expand durs _ _ _ hpos _ _ (Nat.mod_lt _ hn), rawLoop_slice durs R _ hn]
   exact ⟨_, rfl⟩
 
-/-- same for the VOD timeline: it starts at position 0 -/
-theorem timeline_vod_is_slice (durs : List Nat) (R fuel : Nat) (hn : 0 < durs.length)
-    (hpos : ∀ m, m < durs.length → 0 < advDur durs 0 m) (hR : R = durs.sum) :
-    ∃ k, expand (timelineVod durs R fuel) = sliceG durs R 0 k := by
+/-- same for the VOD timeline: it starts at position 0 (reference = the track itself) -/
+theorem timeline_vod_is_slice (durs : List Nat) (fuel : Nat) (hn : 0 < durs.length)
+    (hpos : ∀ m, m < durs.length → 0 < advDur durs 0 m) :
+    ∃ k, expand (timelineVod durs fuel) = sliceG durs durs.sum 0 k := by
   unfold timelineVod
-  have hz : ((R : Int) - (durs.sum : Int)) = 0 := by subst hR; omega
+  have hz : ((durs.sum : Int) - (durs.sum : Int)) = 0 := by omega
   rw [tlLoop_expand durs 0 0 _ hpos _ _ hn]
-  have := rawLoop_slice durs R (R : Int) hn fuel 0 0
+  have := rawLoop_slice durs durs.sum (durs.sum : Int) hn fuel 0 0
   rw [hz] at this
   simp only [Nat.zero_mod] at this
-  have hst : (startG durs R 0 : Int) = 0 := by unfold startG; simp [prefixSum_zero]
+  have hst : (startG durs durs.sum 0 : Int) = 0 := by unfold startG; simp [prefixSum_zero]
   rw [hst] at this
   exact ⟨_, this⟩
 
